@@ -43,6 +43,29 @@ func vC10Owner() (labels [][]byte, wildcard bool) {
 	}
 }
 
+// refPresentName: the spelling the library itself gives a name (printable octets raw, the RFC 1035 special
+// characters backslash-escaped, everything else as \DDD) - so that the wildcard label reads "*".
+func refPresentName(labels [][]byte) string {
+	if len(labels) == 0 {
+		return "."
+	}
+	var t []byte
+	for _, l := range labels {
+		for _, b := range l {
+			switch {
+			case b == '.' || b == ' ' || b == '\'' || b == '@' || b == ';' || b == '(' || b == ')' || b == '"' || b == '\\':
+				t = append(t, '\\', b)
+			case b < 0x21 || b > 0x7E:
+				t = append(t, refDDD(b)...)
+			default:
+				t = append(t, b)
+			}
+		}
+		t = append(t, '.')
+	}
+	return string(t)
+}
+
 func refLowerLabels(labels [][]byte) [][]byte {
 	out := make([][]byte, len(labels))
 	for i, l := range labels {
@@ -56,14 +79,15 @@ func refLowerLabels(labels [][]byte) [][]byte {
 
 // vC10Set builds an RRset of n records of type t with a common owner and class and returns, per record, its
 // canonical RDATA (RFC 4034 section 6.2 item 3).
-func vC10Set(t uint16, owner string, n int) (rrs []RR, rdatas [][]byte, class uint16) {
+func vC10Set(t uint16, owner string, ownerLabels [][]byte, n int) (rrs []RR, rdatas [][]byte, class uint16) {
 	class = ClassINET
-	if vChoice("class", 2) == 1 {
+	if vParam("C10.classes", 1) > 1 && vChoice("class", 2) == 1 {
 		class = ClassCHAOS
 	}
 	var g0 *vGen
 	for i := 0; i < n; i++ {
 		rr, _, g := vBuildRRWith("r"+vItoa(i), t, func(g *vGen) {
+			g.owner = ownerLabels
 			if g0 != nil {
 				g.replay = append([]int{}, g0.choices...)
 			}
@@ -169,19 +193,17 @@ func vC10Build() *vC10Case {
 	c.alg = vC10Alg()
 	c.t = vC10Types[vChoice("type", vParam("C10.types", len(vC10Types)))]
 	c.owner, _ = vC10Owner()
-	var esc bool
-	c.ownerText, esc = refEscapeName(c.owner)
-	_ = esc
+	c.ownerText = refPresentName(c.owner)
 	n := 1 + vChoice("n", vParam("C10.n", 2))
-	c.rrs, c.rdatas, c.class = vC10Set(c.t, c.ownerText, n)
+	c.rrs, c.rdatas, c.class = vC10Set(c.t, c.ownerText, c.owner, n)
 	// presentation of the set: optionally reversed order, optionally one record repeated
-	if n > 1 && vChoice("reverse", 2) == 1 {
+	switch vChoice("presentation", 3) {
+	case 1: // reversed
 		for i, j := 0, len(c.rrs)-1; i < j; i, j = i+1, j-1 {
 			c.rrs[i], c.rrs[j] = c.rrs[j], c.rrs[i]
 			c.rdatas[i], c.rdatas[j] = c.rdatas[j], c.rdatas[i]
 		}
-	}
-	if vChoice("dup", 2) == 1 {
+	case 2: // first record repeated at the end
 		c.rrs = append(c.rrs, c.rrs[0].copy())
 		c.rdatas = append(c.rdatas, c.rdatas[0])
 	}
@@ -263,7 +285,7 @@ func H_C10_prechecks() {
 	owner := [][]byte{{vU8("ownerletter")}, []byte("ex")}
 	vAssume(owner[0][0] >= 'a' && owner[0][0] <= 'z')
 	ownerText, _ := refEscapeName(owner)
-	rrs, rdatas, class := vC10Set(t, ownerText, 1)
+	rrs, rdatas, class := vC10Set(t, ownerText, owner, 1)
 	key := vTestDNSKEY("ex.", alg)
 	key.Hdr.Class = class
 	keyRdata := append([]byte{byte(key.Flags >> 8), byte(key.Flags), key.Protocol, key.Algorithm}, vPubOctets(alg)...)
@@ -294,11 +316,12 @@ func H_C10_prechecks() {
 		same = s.Hdr.Class == class
 	case 5:
 		c := vU8("x8")
+		vAssume(c >= 'A' && c <= 'z' && c != '\\')
 		key.Hdr.Name = string([]byte{c, 'x', '.'})
 		same = refLowerByte(c) == 'e'
 	case 6:
 		c := vU8("x8")
-		vAssume(c != '.' && c != '\\')
+		vAssume(c >= 'A' && c <= 'z' && c != '\\')
 		s.SignerName = string([]byte{c, 'x', '.'})
 		same = refLowerByte(c) == 'e'
 	case 7:
